@@ -151,10 +151,21 @@ class XIndex:
         inst = model.find("x:instance", NS)
         self.instance_paths = set()
 
+        # element names with a user-declared namespace prefix (namespaces setting) keep the prefix in every xpath
+        prefixes = {uri: pfx for pfx, uri in re.findall(r'xmlns:([\w.-]+)="([^"]*)"', xform[: xform.find(">", xform.find("<h:html")) + 1])}
+
+        def qname(tag):
+            if tag.startswith("{"):
+                uri, loc = tag[1:].split("}", 1)
+                if uri != "http://www.w3.org/2002/xforms" and uri in prefixes:
+                    return prefixes[uri] + ":" + loc
+                return loc
+            return tag
+
         def ipaths(el, pre):
             if JR + "template" in el.attrib:
                 return
-            p = pre + [local(el.tag)]
+            p = pre + [qname(el.tag)]
             self.instance_paths.add("/" + "/".join(p))
             for ch in el:
                 ipaths(ch, p)
